@@ -31,8 +31,8 @@ class C15(Prop):
                   "ILP optimisers (CBC), the partition functions and the 1-Euclidean recogniser (C12 ILP, C18, C19) "
                   "invariance is tested metamorphically here, at sizes far beyond brute force, not proved")
     level_note = ("metamorphic differential testing on the real code; the Lean side contributes the permutation- and "
-                  "regrouping-invariance theorems of the specifications; D17 (1-Euclidean depends on storage order) is "
-                  "a known finding")
+                  "regrouping-invariance theorems of the specifications; D17c (the verdict of is_one_euclidean depended on the "
+                  "storage order) was found by this check and is repaired (fix c5078a8)")
     technique = ("Lean 4 invariance theorems (specifications; verdicts of the recognisers proved exact; value of the dynamic "
                  "programme) + metamorphic testing of the real code under relabelling / storage permutation / API regrouping")
     theorems = [
